@@ -542,6 +542,7 @@ def directed():
     import random
     rng = random.Random(1717)
     yield from stepped_cases()
+    yield from onerow_and_bigsum_cases()
     # 64-bit integers whose terms and partial row sums lie beyond 2**53 and cancel: row sums are exact in 64-bit integer arithmetic
     big_ = [[2 ** 60] * 3 + [1] * 4 + [-2 ** 60] * 3, [2 ** 62, 2 ** 62 - 1, -2 ** 62, 5, 5, -2 ** 62, 0, 0, 9, 9], [7] * 10, [2 ** 53 + 1] * 2 + [3] * 6 + [-2 ** 53] * 2]
     for variant_ in ("2d", "ragged", "ragged_from_matrix"):
@@ -633,6 +634,23 @@ def stepped_cases():
             yield {"op": "rows", "variant": "2d", "dtype": "int64", "rows": [[i, i, i + 1, 0] for i in range(7)], "rs": rs_, "rs_array": asarr_}
             yield {"op": "col_slice", "variant": "ragged", "dtype": "int64", "rows": R7, "rs": rs_, "rs_array": asarr_, "cs": slice(1, 3)}
             yield {"op": "col_int", "variant": "ragged", "dtype": "int64", "rows": R7, "rs": rs_, "rs_array": asarr_, "j": 1}
+
+
+def onerow_and_bigsum_cases():
+    # an array of ONE row and a 1 x 1 column of a wider element type: the column is an operand like any other (numpy promotes with its type)
+    for variant_ in ("2d", "ragged"):
+        for uf_ in ("add", "multiply", "subtract"):
+            for side_ in "LR":
+                yield {"op": "colvec", "variant": variant_, "dtype": "int8", "rows": [[1, 1, 2, 100]], "uf": uf_, "side": side_, "col": [100], "coldtype": "int64"}
+                yield {"op": "colvec", "variant": variant_, "dtype": "float32", "rows": [[0.5, 0.5, 2.0]], "uf": uf_, "side": side_, "col": [0.1], "coldtype": "float64"}
+                yield {"op": "colvec", "variant": variant_, "dtype": "uint8", "rows": [[200, 200, 3]], "uf": uf_, "side": side_, "col": [1000], "coldtype": "int32"}
+    # integer rows whose totals lie beyond 64 bits while every cell and every row mean is an ordinary number
+    big_ = [[2 ** 62] * 3 + [2 ** 62 + 8] * 3, [2 ** 61] * 6, [-2 ** 62] * 4 + [-2 ** 62 + 4] * 2]
+    for variant_ in ("2d", "ragged_from_matrix", "ragged"):
+        yield {"op": "npfunc", "variant": variant_, "dtype": "int64", "rows": big_, "name": "mean", "axis": -1}
+        if variant_ != "2d":
+            yield {"op": "red_row", "variant": variant_, "dtype": "int64", "rows": big_, "name": "max"}
+            yield {"op": "red_row", "variant": variant_, "dtype": "int64", "rows": big_, "name": "mean"}
 
 
 def _with_swap(rng, c):
